@@ -3,6 +3,7 @@
   the abstract get/set/erase algebra of Mxj.Model.Mutate).
 -/
 import Mxj.Model.Mutate
+import Mxj.Model.KeySpec
 import Mxj.Lemmas.PathIdx
 namespace Mxj
 
@@ -535,5 +536,685 @@ theorem getPath_erasePath_prefix : ∀ (q r : List Str) (m : Val), r ≠ [] →
         simp only [getPath_map_cons, lookup_insert_self, hl, Option.bind_some]
         exact ih r c hr
     | _ => rw [erasePath_notMap _ _ rfl, getPath_notMap_cons _ _ _ rfl]; rfl
+
+/-! ### the walker (`valuesForKeyPath`) on a pure map path -/
+
+theorem walk_getPath_some (subs : Option SubKeys) : ∀ (ks : List Str) (m v : Val),
+    (∀ k ∈ ks, k ≠ ['*']) → getPath m ks = some v → walk subs m ks = loadLeaf subs v := by
+  intro ks
+  induction ks with
+  | nil => intro m v _ h; rw [getPath_nil] at h; cases h; exact walk_nil subs m
+  | cons k ks ih =>
+    intro m v hs h
+    have hk : ¬ k = ['*'] := hs k (by simp)
+    cases m with
+    | map kvs =>
+      rw [getPath_map_cons] at h
+      cases hl : lookup k kvs with
+      | none => simp [hl] at h
+      | some c =>
+        simp only [hl, Option.bind_some] at h
+        simp only [walk, hk, if_false, hl]
+        exact ih c v (fun k' hk' => hs k' (by simp [hk'])) h
+    | _ => simp [getPath] at h
+
+theorem walk_getPath_none (subs : Option SubKeys) : ∀ (ks : List Str) (m : Val),
+    (∀ k ∈ ks, k ≠ ['*']) → noListBefore m ks → getPath m ks = none → walk subs m ks = [] := by
+  intro ks
+  induction ks with
+  | nil => intro m _ _ h; simp [getPath_nil] at h
+  | cons k ks ih =>
+    intro m hs hn h
+    have hk : ¬ k = ['*'] := hs k (by simp)
+    cases m with
+    | map kvs =>
+      rw [getPath_map_cons] at h
+      simp only [walk, hk, if_false]
+      cases hl : lookup k kvs with
+      | none => rfl
+      | some c =>
+        simp only [hl, Option.bind_some] at h
+        exact ih c (fun k' hk' => hs k' (by simp [hk']))
+          ((noListBefore_map_cons kvs k ks).1 hn c hl) h
+    | list xs => exact absurd hn (noListBefore_list_cons xs k ks)
+    | _ => simp [walk]
+
+/-! ### locations: `walkLoc`, `getLoc`, `updLoc`, `prevLoc` on a pure map path -/
+
+theorem walkLoc_getPath_some : ∀ (ks : List Str) (m v : Val),
+    getPath m ks = some v → v.isList = false → walkLoc m ks = [ks.map Seg.key] := by
+  intro ks
+  induction ks with
+  | nil =>
+    intro m v h hv
+    rw [getPath_nil] at h; cases h
+    cases m <;> first | (simp [Val.isList] at hv; done) | simp [walkLoc]
+  | cons k ks ih =>
+    intro m v h hv
+    cases m with
+    | map kvs =>
+      rw [getPath_map_cons] at h
+      cases hl : lookup k kvs with
+      | none => simp [hl] at h
+      | some c =>
+        simp only [hl, Option.bind_some] at h
+        simp only [walkLoc, hl, ih c v h hv, List.map_cons, List.map_nil]
+    | _ => simp [getPath] at h
+
+theorem walkLoc_getPath_list : ∀ (ks : List Str) (m : Val) (xs : List Val),
+    getPath m ks = some (.list xs) →
+    walkLoc m ks = (List.range xs.length).map fun i => ks.map Seg.key ++ [Seg.idx i] := by
+  intro ks
+  induction ks with
+  | nil =>
+    intro m xs h
+    rw [getPath_nil] at h; cases h
+    simp [walkLoc]
+  | cons k ks ih =>
+    intro m xs h
+    cases m with
+    | map kvs =>
+      rw [getPath_map_cons] at h
+      cases hl : lookup k kvs with
+      | none => simp [hl] at h
+      | some c =>
+        simp only [hl, Option.bind_some] at h
+        simp only [walkLoc, hl, ih c xs h, List.map_map, List.map_cons, List.cons_append]
+        rfl
+    | _ => simp [getPath] at h
+
+theorem walkLoc_getPath_none : ∀ (ks : List Str) (m : Val),
+    noListBefore m ks → getPath m ks = none → walkLoc m ks = [] := by
+  intro ks
+  induction ks with
+  | nil => intro m _ h; simp [getPath_nil] at h
+  | cons k ks ih =>
+    intro m hn h
+    cases m with
+    | map kvs =>
+      rw [getPath_map_cons] at h
+      cases hl : lookup k kvs with
+      | none => simp [walkLoc, hl]
+      | some c =>
+        simp only [hl, Option.bind_some] at h
+        simp only [walkLoc, hl, ih c ((noListBefore_map_cons kvs k ks).1 hn c hl) h, List.map_nil]
+    | list xs => exact absurd hn (noListBefore_list_cons xs k ks)
+    | _ => simp [walkLoc]
+
+theorem getLoc_nil (m : Val) : getLoc m [] = some m := by
+  cases m <;> rfl
+
+theorem getLoc_keys_append : ∀ (ks : List Str) (m : Val) (rest : List Seg),
+    getLoc m (ks.map Seg.key ++ rest) = (getPath m ks).bind (fun v => getLoc v rest) := by
+  intro ks
+  induction ks with
+  | nil => intro m rest; simp [getPath_nil]
+  | cons k ks ih =>
+    intro m rest
+    cases m with
+    | map kvs =>
+      simp only [List.map_cons, List.cons_append, getLoc, getPath_map_cons]
+      cases lookup k kvs with
+      | none => rfl
+      | some c => simp [ih]
+    | _ => simp [getLoc, getPath]
+
+theorem getLoc_keys (ks : List Str) (m : Val) : getLoc m (ks.map Seg.key) = getPath m ks := by
+  have := getLoc_keys_append ks m []
+  simp only [List.append_nil] at this
+  rw [this]
+  cases getPath m ks <;> simp [getLoc_nil]
+
+theorem updLoc_notMap (f : Entries → Entries) (m : Val) (ks : List Str) (h : m.isMap = false) :
+    updLoc f m (ks.map Seg.key) = m := by
+  cases m <;> first | (simp [Val.isMap] at h; done) | (cases ks <;> simp [updLoc])
+
+/-- `cVal[key] = value` in the inner map at the end of `ks` is `setPath` -/
+theorem updLoc_insert (nv : Val) (key : Str) : ∀ (ks : List Str) (m : Val),
+    updLoc (insert key nv) m (ks.map Seg.key) = setPath nv m (ks ++ [key]) := by
+  intro ks
+  induction ks with
+  | nil => intro m; cases m <;> simp [updLoc, setPath]
+  | cons k ks ih =>
+    intro m
+    cases m with
+    | map kvs =>
+      rw [List.cons_append, setPath_cons_ne nv kvs k (ks ++ [key]) (by simp)]
+      simp only [List.map_cons, updLoc]
+      cases lookup k kvs with
+      | none => rfl
+      | some c => simp only [ih]
+    | _ => rw [updLoc_notMap _ _ _ rfl, setPath_notMap _ _ _ rfl]
+
+/-- `delete(m, key)` in the inner map at the end of `ks` is `erasePath` -/
+theorem updLoc_erase (key : Str) : ∀ (ks : List Str) (m : Val),
+    updLoc (erase key) m (ks.map Seg.key) = erasePath m (ks ++ [key]) := by
+  intro ks
+  induction ks with
+  | nil => intro m; cases m <;> simp [updLoc, erasePath]
+  | cons k ks ih =>
+    intro m
+    cases m with
+    | map kvs =>
+      rw [List.cons_append, erasePath_cons_ne kvs k (ks ++ [key]) (by simp)]
+      simp only [List.map_cons, updLoc]
+      cases lookup k kvs with
+      | none => rfl
+      | some c => simp only [ih]
+    | _ => rw [updLoc_notMap _ _ _ rfl, erasePath_notMap _ _ rfl]
+
+/-- the in-place rename in the inner map = erase the old entry, then set the new one -/
+theorem updLoc_rename (old nn : Str) (v : Val) (hne : old ≠ nn) : ∀ (ks : List Str) (m : Val),
+    getPath m (ks ++ [old]) = some v →
+    updLoc (renameEntries old nn) m (ks.map Seg.key)
+      = setPath v (erasePath m (ks ++ [old])) (ks ++ [nn]) := by
+  intro ks
+  induction ks with
+  | nil =>
+    intro m h
+    cases m with
+    | map kvs =>
+      simp only [List.nil_append, getPath_map_cons] at h
+      cases hl : lookup old kvs with
+      | none => simp [hl] at h
+      | some c =>
+        simp only [hl, Option.bind_some, getPath_nil, Option.some.injEq] at h
+        subst h
+        simp only [List.map_nil, updLoc, renameEntries, hl, List.nil_append, erasePath, setPath,
+          erase_insert_comm old nn c hne]
+    | _ => simp [getPath] at h
+  | cons k ks ih =>
+    intro m h
+    cases m with
+    | map kvs =>
+      rw [List.cons_append, getPath_map_cons] at h
+      cases hl : lookup k kvs with
+      | none => simp [hl] at h
+      | some c =>
+        simp only [hl, Option.bind_some] at h
+        rw [List.cons_append, erasePath_cons_ne kvs k (ks ++ [old]) (by simp)]
+        simp only [hl]
+        rw [List.cons_append, setPath_cons_ne v _ k (ks ++ [nn]) (by simp)]
+        simp only [lookup_insert_self, insert_insert, List.map_cons, updLoc, hl, ih c h]
+    | _ => simp [getPath] at h
+
+theorem prevLoc_notMap (m : Val) (ks : List Str) (h : m.isMap = false) : prevLoc m ks = none := by
+  cases m <;> first | (simp [Val.isMap] at h; done) | (unfold prevLoc; rfl)
+
+theorem prevLoc_cons_ne (kvs : Entries) (k : Str) (ks : List Str) (h : ks ≠ []) :
+    prevLoc (.map kvs) (k :: ks) = match lookup k kvs with
+      | some v => (prevLoc v ks).map (Seg.key k :: ·)
+      | none => none := by
+  cases ks with
+  | nil => exact absurd rfl h
+  | cons k' ks' => simp only [prevLoc]; cases lookup k kvs <;> rfl
+
+/-- `prevValueByPath` finds the parent exactly when the path resolves through maps -/
+theorem prevLoc_eq : ∀ (ks : List Str) (key : Str) (m : Val),
+    prevLoc m (ks ++ [key])
+      = if (getPath m (ks ++ [key])).isSome then some (ks.map Seg.key) else none := by
+  intro ks
+  induction ks with
+  | nil =>
+    intro key m
+    cases m with
+    | map kvs =>
+      simp only [List.nil_append, prevLoc, getPath_map_cons, List.map_nil]
+      cases lookup key kvs <;> simp [getPath_nil]
+    | _ => rw [prevLoc_notMap _ _ rfl, List.nil_append, getPath_notMap_cons _ _ _ rfl]; rfl
+  | cons k ks ih =>
+    intro key m
+    cases m with
+    | map kvs =>
+      rw [List.cons_append, prevLoc_cons_ne kvs k (ks ++ [key]) (by simp), getPath_map_cons]
+      cases hl : lookup k kvs with
+      | none => rfl
+      | some c =>
+        simp only [Option.bind_some, ih key c]
+        split <;> simp
+    | _ => rw [prevLoc_notMap _ _ rfl, List.cons_append, getPath_notMap_cons _ _ _ rfl]; rfl
+
+/-! ### dot-paths built from safe keys -/
+
+theorem keySafe_iff (k : Str) :
+    KeySpec.keySafe k = true ↔ k ≠ [] ∧ '.' ∉ k ∧ '[' ∉ k ∧ '*' ∉ k := by
+  unfold KeySpec.keySafe
+  cases k <;> simp [and_assoc]
+
+theorem keySafe_nameOk (k : Str) (h : KeySpec.keySafe k = true) : nameOk k = true := by
+  rw [keySafe_iff] at h
+  exact (nameOk_iff k).2 ⟨h.1, h.2.1⟩
+
+theorem keySafe_ne_star (k : Str) (h : KeySpec.keySafe k = true) : k ≠ ['*'] := by
+  rw [keySafe_iff] at h
+  intro e; subst e
+  exact h.2.2.2 (by simp)
+
+theorem mem_joinWith (sep : Str) (c : Char) : ∀ xs : List Str,
+    c ∈ joinWith sep xs → c ∈ sep ∨ ∃ x ∈ xs, c ∈ x := by
+  intro xs
+  induction xs with
+  | nil => intro h; simp [joinWith] at h
+  | cons x rest ih =>
+    intro h
+    cases rest with
+    | nil => exact Or.inr ⟨x, by simp, by simpa [joinWith] using h⟩
+    | cons y rest' =>
+      simp only [joinWith, List.mem_append] at h
+      rcases h with (h | h) | h
+      · exact Or.inr ⟨x, by simp, h⟩
+      · exact Or.inl h
+      · rcases ih h with h' | ⟨z, hz, hc⟩
+        · exact Or.inl h'
+        · exact Or.inr ⟨z, List.mem_cons_of_mem _ hz, hc⟩
+
+theorem joinDot_no_bracket_mem (segs : List Str) (h : ∀ s ∈ segs, KeySpec.keySafe s = true) :
+    '[' ∉ joinDot segs := by
+  intro hm
+  rcases mem_joinWith ['.'] '[' segs hm with h' | ⟨x, hx, hcx⟩
+  · simp at h'
+  · exact ((keySafe_iff x).1 (h x hx)).2.2.1 hcx
+
+theorem joinDot_no_bracket (segs : List Str) (h : ∀ s ∈ segs, KeySpec.keySafe s = true) :
+    (joinDot segs).contains '[' = false := by
+  simpa using joinDot_no_bracket_mem segs h
+
+theorem splitDot_joinDot (segs : List Str) (hne : segs ≠ [])
+    (h : ∀ s ∈ segs, KeySpec.keySafe s = true) : splitDot (joinDot segs) = segs :=
+  splitOn_joinWith '.' segs hne (fun x hx => ((keySafe_iff x).1 (h x hx)).2.1)
+
+theorem pathKeys_joinDot_safe (segs : List Str) (h : ∀ s ∈ segs, KeySpec.keySafe s = true) :
+    pathKeys (joinDot segs) = segs := by
+  cases segs with
+  | nil => simp [pathKeys, joinDot, joinWith, splitDot, splitOn, splitGo, dropTrailingEmpty]
+  | cons a as =>
+    exact pathKeys_joinDot (a :: as) (by simp) (fun n hn => keySafe_nameOk n (h n hn))
+
+theorem joinDot_isEmpty (segs : List Str) (h : ∀ s ∈ segs, s ≠ []) :
+    (joinDot segs).isEmpty = segs.isEmpty := by
+  cases segs with
+  | nil => rfl
+  | cons a as =>
+    have ha : a ≠ [] := h a (by simp)
+    cases as with
+    | nil => cases a <;> simp_all [joinDot, joinWith]
+    | cons b bs => cases a <;> simp_all [joinDot, joinWith]
+
+/-- the sibling path `RenameKey` probes: parent path + "." + newName (or newName alone at the top) -/
+theorem renameProbe_eq (ks : List Str) (nn : Str) (h : ∀ s ∈ ks, s ≠ []) :
+    (if (joinDot ks).isEmpty then nn else joinDot ks ++ ['.'] ++ nn) = joinDot (ks ++ [nn]) := by
+  rw [joinDot_isEmpty ks h]
+  cases ks with
+  | nil => rfl
+  | cons a as =>
+    simp only [List.isEmpty_cons, Bool.false_eq_true, if_false]
+    exact (joinWith_snoc ['.'] (a :: as) nn (by simp)).symm
+
+/-! ### evaluating the Go-level operations on a safe dot-path -/
+
+theorem existsNoSubs_joinDot (m : Val) (segs : List Str)
+    (h : ∀ s ∈ segs, KeySpec.keySafe s = true) :
+    existsNoSubs m (joinDot segs) = .ok (!(walk none m segs).isEmpty) := by
+  simp [existsNoSubs, pathExists, valuesForPath, joinDot_no_bracket_mem segs h, subKeyArg,
+    oldValues, pathKeys_joinDot_safe segs h]
+
+theorem valueForPath_joinDot (m : Val) (segs : List Str)
+    (h : ∀ s ∈ segs, KeySpec.keySafe s = true) :
+    valueForPath m (joinDot segs) = match walk none m segs with
+      | [] => .error .pathNotExist
+      | v :: _ => .ok v := by
+  simp only [valueForPath, valuesForPath, joinDot_no_bracket segs h, subKeyArg, oldValues,
+    pathKeys_joinDot_safe segs h, List.isEmpty_nil, Bool.not_false, if_true]
+  cases walk none m segs <;> rfl
+
+theorem setValueForPath_joinDot (m nv : Val) (ks : List Str) (key : Str)
+    (h : ∀ s ∈ ks ++ [key], KeySpec.keySafe s = true) :
+    setValueForPath m nv (joinDot (ks ++ [key])) =
+      match (walkLoc m ks).head? with
+      | none => .error .pathNotExist
+      | some loc =>
+        match getLoc m loc with
+        | some .null => .ok m
+        | some (.map _) => .ok (updLoc (insert key nv) m loc)
+        | _ => .error .notAMap := by
+  have hks : ∀ s ∈ ks, KeySpec.keySafe s = true := fun s hs => h s (by simp [hs])
+  simp only [setValueForPath, splitDot_joinDot (ks ++ [key]) (by simp) h, List.dropLast_concat,
+    pathKeys_joinDot_safe ks hks, List.getLast?_concat, Option.getD_some]
+  rfl
+
+theorem removePath_joinDot (m : Val) (ks : List Str) (key : Str)
+    (h : ∀ s ∈ ks ++ [key], KeySpec.keySafe s = true) :
+    removePath m (joinDot (ks ++ [key])) =
+      if (getPath m (ks ++ [key])).isSome then .ok (erasePath m (ks ++ [key]))
+      else .error .prevNotFound := by
+  simp only [removePath, splitDot_joinDot (ks ++ [key]) (by simp) h, prevLoc_eq,
+    List.getLast?_concat, Option.getD_some]
+  by_cases hs : (getPath m (ks ++ [key])).isSome = true
+  · simp only [hs, if_true, updLoc_erase]
+  · simp only [hs]; rfl
+
+theorem renameKey_joinDot (m : Val) (ks : List Str) (key nn : Str)
+    (h : ∀ s ∈ ks ++ [key], KeySpec.keySafe s = true) (hnn : KeySpec.keySafe nn = true) :
+    renameKey existsNoSubs m (joinDot (ks ++ [key])) nn =
+      match (walk none m (ks ++ [key])).isEmpty, (walk none m (ks ++ [nn])).isEmpty with
+      | true, _ => .error .renameNotFound
+      | false, false => .error .renameExists
+      | false, true =>
+          if (getPath m (ks ++ [key])).isSome
+          then .ok (updLoc (renameEntries key nn) m (ks.map Seg.key))
+          else .error .prevNotFound := by
+  have hks : ∀ s ∈ ks, KeySpec.keySafe s = true := fun s hs => h s (by simp [hs])
+  have hks' : ∀ s ∈ ks, s ≠ [] := fun s hs => ((keySafe_iff s).1 (hks s hs)).1
+  have hnew : ∀ s ∈ ks ++ [nn], KeySpec.keySafe s = true := by
+    intro s hs
+    rcases List.mem_append.1 hs with h1 | h1
+    · exact hks s h1
+    · simp only [List.mem_singleton] at h1; subst h1; exact hnn
+  simp only [renameKey, parentPathOf, lastKeyOf, splitDot_joinDot (ks ++ [key]) (by simp) h,
+    List.dropLast_concat, renameProbe_eq ks nn hks', existsNoSubs_joinDot m _ h,
+    existsNoSubs_joinDot m _ hnew, prevLoc_eq, List.getLast?_concat, Option.getD_some]
+  cases (walk none m (ks ++ [key])).isEmpty <;> cases (walk none m (ks ++ [nn])).isEmpty <;>
+    simp only [Bool.not_true, Bool.not_false] <;>
+    first | rfl | (by_cases hs : (getPath m (ks ++ [key])).isSome = true <;> simp only [hs] <;> rfl)
+
+/-! ### SetValueForPath by what the parent path resolves to -/
+
+theorem exists_snoc (segs : List Str) (h : segs ≠ []) : ∃ ks key, segs = ks ++ [key] :=
+  ⟨segs.dropLast, segs.getLast h, (List.dropLast_concat_getLast h).symm⟩
+
+theorem setValueForPath_map_parent (m nv : Val) (ks : List Str) (key : Str) (pk : Entries)
+    (h : ∀ s ∈ ks ++ [key], KeySpec.keySafe s = true) (hp : getPath m ks = some (.map pk)) :
+    setValueForPath m nv (joinDot (ks ++ [key])) = .ok (setPath nv m (ks ++ [key])) := by
+  rw [setValueForPath_joinDot m nv ks key h, walkLoc_getPath_some ks m _ hp rfl]
+  simp only [List.head?_cons, getLoc_keys, hp, updLoc_insert]
+
+theorem setValueForPath_missing_parent (m nv : Val) (ks : List Str) (key : Str)
+    (h : ∀ s ∈ ks ++ [key], KeySpec.keySafe s = true) (hn : noListBefore m ks)
+    (hp : getPath m ks = none) :
+    setValueForPath m nv (joinDot (ks ++ [key])) = .error .pathNotExist := by
+  rw [setValueForPath_joinDot m nv ks key h, walkLoc_getPath_none ks m hn hp]
+  rfl
+
+theorem setValueForPath_nil_parent (m nv : Val) (ks : List Str) (key : Str)
+    (h : ∀ s ∈ ks ++ [key], KeySpec.keySafe s = true) (hp : getPath m ks = some .null) :
+    setValueForPath m nv (joinDot (ks ++ [key])) = .ok m := by
+  rw [setValueForPath_joinDot m nv ks key h, walkLoc_getPath_some ks m _ hp rfl]
+  simp only [List.head?_cons, getLoc_keys, hp]
+
+theorem setValueForPath_scalar_parent (m nv pm : Val) (ks : List Str) (key : Str)
+    (h : ∀ s ∈ ks ++ [key], KeySpec.keySafe s = true) (hp : getPath m ks = some pm)
+    (hm : pm.isMap = false) (hl : pm.isList = false) (hnull : pm ≠ .null) :
+    setValueForPath m nv (joinDot (ks ++ [key])) = .error .notAMap := by
+  rw [setValueForPath_joinDot m nv ks key h, walkLoc_getPath_some ks m _ hp hl]
+  simp only [List.head?_cons, getLoc_keys, hp]
+  cases pm <;> first | rfl | (simp [Val.isMap] at hm; done) | exact absurd rfl hnull
+
+/-- updating below a key path = `setPath` of the updated subtree -/
+theorem updLoc_keys_append (f : Entries → Entries) (rest : List Seg) : ∀ (ks : List Str) (m sub : Val),
+    ks ≠ [] → getPath m ks = some sub →
+    updLoc f m (ks.map Seg.key ++ rest) = setPath (updLoc f sub rest) m ks := by
+  intro ks
+  induction ks with
+  | nil => intro m sub h; exact absurd rfl h
+  | cons k ks ih =>
+    intro m sub _ hp
+    cases m with
+    | map kvs =>
+      rw [getPath_map_cons] at hp
+      cases hl : lookup k kvs with
+      | none => simp [hl] at hp
+      | some c =>
+        simp only [hl, Option.bind_some] at hp
+        simp only [List.map_cons, List.cons_append, updLoc, hl]
+        cases ks with
+        | nil =>
+          rw [getPath_nil] at hp; cases hp
+          simp [setPath]
+        | cons k' ks' =>
+          rw [setPath_cons_ne _ kvs k (k' :: ks') (by simp)]
+          simp only [hl]
+          rw [← ih c sub (by simp) hp]
+    | _ => simp [getPath] at hp
+
+/-- a list parent: `ValueForPath(parent)` hands back the list's first member, so the model (like
+    the Go code) works on that member -/
+theorem setValueForPath_list_parent (m nv : Val) (ks : List Str) (key : Str) (xs : List Val)
+    (h : ∀ s ∈ ks ++ [key], KeySpec.keySafe s = true) (hks : ks ≠ [])
+    (hp : getPath m ks = some (.list xs)) :
+    setValueForPath m nv (joinDot (ks ++ [key])) =
+      match (generalizing := false) xs with
+      | [] => .error .pathNotExist
+      | .null :: _ => .ok m
+      | .map e :: rest => .ok (setPath (.list (.map (insert key nv e) :: rest)) m ks)
+      | _ :: _ => .error .notAMap := by
+  rw [setValueForPath_joinDot m nv ks key h, walkLoc_getPath_list ks m xs hp]
+  cases xs with
+  | nil => rfl
+  | cons x rest =>
+    simp only [List.length_cons, List.range_succ_eq_map, List.map_cons, List.head?_cons,
+      getLoc_keys_append, hp, Option.bind_some, getLoc, List.getElem?_cons_zero]
+    cases x with
+    | map e =>
+      simp only [updLoc_keys_append _ _ ks m _ hks hp, updLoc, List.getElem?_cons_zero,
+        List.set_cons_zero]
+    | _ => rfl
+
+/-! ### RenameKey / Remove at the (ks, key) level -/
+
+theorem noListBefore_snoc (m pm : Val) (ks : List Str) (x : Str) (hp : getPath m ks = some pm)
+    (hl : pm.isList = false) : noListBefore m (ks ++ [x]) := by
+  intro pre xs hpre hne hg
+  rcases List.prefix_concat_iff.1 hpre with e | hpre'
+  · exact hne e
+  · by_cases e : pre = ks
+    · subst e
+      rw [hp] at hg
+      cases hg
+      simp [Val.isList] at hl
+    · exact noListBefore_of_getPath_some ks m pm hp pre xs hpre' e hg
+
+theorem noListBefore_erasePath (m : Val) (segs : List Str) (h : noListBefore m segs) :
+    noListBefore (erasePath m segs) segs := by
+  intro pre xs hpre hne hg
+  obtain ⟨r, hr⟩ := hpre
+  have hrne : r ≠ [] := by
+    intro e; subst e; simp at hr; exact hne hr
+  subst hr
+  rw [getPath_erasePath_prefix pre r m hrne] at hg
+  cases hsub : getPath m pre with
+  | none => simp [hsub] at hg
+  | some sub =>
+    simp only [hsub, Option.map_some, Option.some.injEq] at hg
+    have hl : sub.isList = true := by
+      rw [← erasePath_isList sub r, hg]; rfl
+    cases sub with
+    | list ys => exact h pre ys (List.prefix_append pre r) hne hsub
+    | _ => simp [Val.isList] at hl
+
+theorem safe_ne_star (segs : List Str) (h : ∀ s ∈ segs, KeySpec.keySafe s = true) :
+    ∀ k ∈ segs, k ≠ ['*'] := fun k hk => keySafe_ne_star k (h k hk)
+
+theorem existsNoSubs_erasePath (m : Val) (segs : List Str) (hne : segs ≠ [])
+    (h : ∀ s ∈ segs, KeySpec.keySafe s = true) (hw : m.wf = true) (hn : noListBefore m segs) :
+    existsNoSubs (erasePath m segs) (joinDot segs) = .ok false := by
+  rw [existsNoSubs_joinDot _ segs h,
+    walk_getPath_none none segs _ (safe_ne_star segs h) (noListBefore_erasePath m segs hn)
+      (by simpa using getPath_erasePath_ext segs m [] hne hw)]
+  rfl
+
+theorem renameKey_not_found (m : Val) (path nn : Str) (h : existsNoSubs m path = .ok false) :
+    renameKey existsNoSubs m path nn = .error .renameNotFound := by
+  simp only [renameKey, h]
+
+theorem renameKey_missing (m : Val) (segs : List Str) (nn : Str)
+    (h : ∀ s ∈ segs, KeySpec.keySafe s = true) (hn : noListBefore m segs)
+    (hg : getPath m segs = none) :
+    renameKey existsNoSubs m (joinDot segs) nn = .error .renameNotFound := by
+  apply renameKey_not_found
+  rw [existsNoSubs_joinDot _ segs h, walk_getPath_none none segs m (safe_ne_star segs h) hn hg]
+  rfl
+
+theorem safe_snoc (ks : List Str) (key nn : Str) (h : ∀ s ∈ ks ++ [key], KeySpec.keySafe s = true)
+    (hnn : KeySpec.keySafe nn = true) : ∀ s ∈ ks ++ [nn], KeySpec.keySafe s = true := by
+  intro s hs
+  rcases List.mem_append.1 hs with h1 | h1
+  · exact h s (by simp [h1])
+  · simp only [List.mem_singleton] at h1; subst h1; exact hnn
+
+theorem getPath_snoc (m : Val) (ks : List Str) (x : Str) (pk : Entries)
+    (hp : getPath m ks = some (.map pk)) : getPath m (ks ++ [x]) = lookup x pk := by
+  rw [getPath_append, hp, Option.bind_some, getPath_map_cons]
+  cases lookup x pk <;> simp [getPath_nil]
+
+theorem isEmpty_false_of_ne_nil {α} (l : List α) (h : l ≠ []) : l.isEmpty = false := by
+  cases l with
+  | nil => exact absurd rfl h
+  | cons a l => rfl
+
+theorem renameKey_moves (m v : Val) (ks : List Str) (key nn : Str) (pk : Entries)
+    (h : ∀ s ∈ ks ++ [key], KeySpec.keySafe s = true) (hnn : KeySpec.keySafe nn = true)
+    (hv : getPath m (ks ++ [key]) = some v) (hparent : getPath m ks = some (.map pk))
+    (hfresh : lookup nn pk = none) (hne : noEmptyList m = true) :
+    renameKey existsNoSubs m (joinDot (ks ++ [key])) nn
+      = .ok (setPath v (erasePath m (ks ++ [key])) (ks ++ [nn])) := by
+  have hnew := safe_snoc ks key nn h hnn
+  have hold : lookup key pk = some v := by rw [← getPath_snoc m ks key pk hparent]; exact hv
+  have hkn : key ≠ nn := by
+    intro e; subst e; rw [hfresh] at hold; cases hold
+  have hgn : getPath m (ks ++ [nn]) = none := by rw [getPath_snoc m ks nn pk hparent]; exact hfresh
+  have hw1 : (walk none m (ks ++ [key])).isEmpty = false := by
+    rw [walk_getPath_some none _ m v (safe_ne_star _ h) hv]
+    exact isEmpty_false_of_ne_nil _ (loadLeaf_none_ne_nil v (noEmptyList_getPath _ m v hne hv))
+  have hw2 : (walk none m (ks ++ [nn])).isEmpty = true := by
+    rw [walk_getPath_none none _ m (safe_ne_star _ hnew)
+      (noListBefore_snoc m _ ks nn hparent rfl) hgn]
+    rfl
+  rw [renameKey_joinDot m ks key nn h hnn, hw1, hw2]
+  simp only [hv, Option.isSome_some, if_true, updLoc_rename key nn v hkn ks m hv]
+
+theorem renameKey_refuses (m v w : Val) (ks : List Str) (key nn : Str) (pk : Entries)
+    (h : ∀ s ∈ ks ++ [key], KeySpec.keySafe s = true) (hnn : KeySpec.keySafe nn = true)
+    (hv : getPath m (ks ++ [key]) = some v) (hparent : getPath m ks = some (.map pk))
+    (hsib : lookup nn pk = some w) (hne : noEmptyList m = true) :
+    renameKey existsNoSubs m (joinDot (ks ++ [key])) nn = .error .renameExists := by
+  have hnew := safe_snoc ks key nn h hnn
+  have hgn : getPath m (ks ++ [nn]) = some w := by rw [getPath_snoc m ks nn pk hparent]; exact hsib
+  have hw1 : (walk none m (ks ++ [key])).isEmpty = false := by
+    rw [walk_getPath_some none _ m v (safe_ne_star _ h) hv]
+    exact isEmpty_false_of_ne_nil _ (loadLeaf_none_ne_nil v (noEmptyList_getPath _ m v hne hv))
+  have hw2 : (walk none m (ks ++ [nn])).isEmpty = false := by
+    rw [walk_getPath_some none _ m w (safe_ne_star _ hnew) hgn]
+    exact isEmpty_false_of_ne_nil _ (loadLeaf_none_ne_nil w (noEmptyList_getPath _ m w hne hgn))
+  rw [renameKey_joinDot m ks key nn h hnn, hw1, hw2]
+
+/-! ### well-formedness is preserved -/
+
+theorem wfEntries_insert (k : Str) (v : Val) (hv : v.wf = true) : ∀ kvs : Entries,
+    Val.wfEntries kvs = true → Val.wfEntries (insert k v kvs) = true := by
+  intro kvs
+  induction kvs with
+  | nil => intro _; simp [insert, Val.wfEntries, hv]
+  | cons e rest ih =>
+    obtain ⟨k₀, v₀⟩ := e
+    intro hw
+    simp only [Val.wfEntries, Bool.and_eq_true] at hw
+    by_cases h : k = k₀
+    · simp [insert, h, Val.wfEntries, hv, hw.2]
+    · simp [insert, h, Val.wfEntries, hw.1, ih hw.2]
+
+theorem wfEntries_erase (k : Str) : ∀ kvs : Entries,
+    Val.wfEntries kvs = true → Val.wfEntries (erase k kvs) = true := by
+  intro kvs
+  induction kvs with
+  | nil => intro _; rfl
+  | cons e rest ih =>
+    obtain ⟨k₀, v₀⟩ := e
+    intro hw
+    simp only [Val.wfEntries, Bool.and_eq_true] at hw
+    by_cases h : k = k₀
+    · simp [erase, h, hw.2]
+    · simp [erase, h, Val.wfEntries, hw.1, ih hw.2]
+
+theorem wf_map_insert (kvs : Entries) (k : Str) (v : Val) (hw : (Val.map kvs).wf = true)
+    (hv : v.wf = true) : (Val.map (insert k v kvs)).wf = true := by
+  simp only [Val.wf, Bool.and_eq_true] at hw ⊢
+  exact ⟨wfEntries_insert k v hv kvs hw.1, distinctKeys_insert k v kvs hw.2⟩
+
+theorem wf_map_erase (kvs : Entries) (k : Str) (hw : (Val.map kvs).wf = true) :
+    (Val.map (erase k kvs)).wf = true := by
+  simp only [Val.wf, Bool.and_eq_true] at hw ⊢
+  exact ⟨wfEntries_erase k kvs hw.1, distinctKeys_erase k kvs hw.2⟩
+
+theorem wf_setPath (nv : Val) (hnv : nv.wf = true) : ∀ (segs : List Str) (m : Val),
+    m.wf = true → (setPath nv m segs).wf = true := by
+  intro segs
+  induction segs with
+  | nil => intro m hw; rw [setPath_nil]; exact hw
+  | cons k ks ih =>
+    intro m hw
+    cases m with
+    | map kvs =>
+      cases ks with
+      | nil => exact wf_map_insert kvs k nv hw hnv
+      | cons k' ks' =>
+        rw [setPath_cons_ne nv kvs k (k' :: ks') (by simp)]
+        cases hl : lookup k kvs with
+        | none => exact hw
+        | some c => exact wf_map_insert kvs k _ hw (ih c (wf_lookup kvs k c hw hl))
+    | _ => rw [setPath_notMap _ _ _ rfl]; exact hw
+
+theorem wf_erasePath : ∀ (segs : List Str) (m : Val),
+    m.wf = true → (erasePath m segs).wf = true := by
+  intro segs
+  induction segs with
+  | nil => intro m hw; rw [erasePath_nil]; exact hw
+  | cons k ks ih =>
+    intro m hw
+    cases m with
+    | map kvs =>
+      cases ks with
+      | nil => exact wf_map_erase kvs k hw
+      | cons k' ks' =>
+        rw [erasePath_cons_ne kvs k (k' :: ks') (by simp)]
+        cases hl : lookup k kvs with
+        | none => exact hw
+        | some c => exact wf_map_insert kvs k _ hw (ih c (wf_lookup kvs k c hw hl))
+    | _ => rw [erasePath_notMap _ _ rfl]; exact hw
+
+/-! ### a decidable form of `noListBefore` (for concrete instances) -/
+
+def noListBeforeB : Val → List Str → Bool
+  | _, [] => true
+  | .map kvs, k :: ks => match lookup k kvs with
+      | some c => noListBeforeB c ks
+      | none => true
+  | .list _, _ :: _ => false
+  | _, _ :: _ => true
+
+theorem noListBefore_scalar (m : Val) (ks : List Str) (hm : m.isMap = false)
+    (hl : m.isList = false) : noListBefore m ks := by
+  intro pre xs _ _ hg
+  cases pre with
+  | nil =>
+    rw [getPath_nil] at hg
+    cases hg
+    simp [Val.isList] at hl
+  | cons k pre' => rw [getPath_notMap_cons _ _ _ hm] at hg; cases hg
+
+theorem noListBefore_of_B : ∀ (ks : List Str) (m : Val),
+    noListBeforeB m ks = true → noListBefore m ks := by
+  intro ks
+  induction ks with
+  | nil => intro m _; exact noListBefore_nil m
+  | cons k ks ih =>
+    intro m h
+    cases m with
+    | map kvs =>
+      rw [noListBefore_map_cons]
+      intro c hl
+      simp only [noListBeforeB, hl] at h
+      exact ih c h
+    | list xs => simp [noListBeforeB] at h
+    | _ => exact noListBefore_scalar _ _ rfl rfl
 
 end Mxj
